@@ -61,7 +61,10 @@ def run(ctx, rep):
     else:
         e0, e1 = stack.args[0].elts
         cond = a[1].id if ok_args else None
-        good = isinstance(e0, ast.Name) and e0.id == uvar and isinstance(e1, ast.Name) and e1.id == cond
+        from ..idioms import resolve
+        e0r = resolve(fn.node, e0) if isinstance(e0, ast.Name) else e0
+        good = ((isinstance(e0, ast.Name) and e0.id == uvar) or e0r is c) and isinstance(e1, ast.Name) and e1.id == cond
+        uvar = uvar or short(c, 40)
         rep.check('D1.wiring', fn, stack, good, f'returns column_stack(({uvar}, {cond})): u next to the variate it was conditioned on',
                   f'the returned columns are ({short(e0)}, {short(e1)}): u is not paired with the variate it was conditioned on '
                   '(the pairs no longer follow the copula)', construct='stacking')
